@@ -182,10 +182,13 @@ def read_batch_slice(prior_samples_file, columns, slice, units=None):
 
     batch = None
     with tb.open_file(prior_samples_file, mode="r") as f:
+        # columns may be stored with different precision: don't truncate the
+        # others to the dtype of the first one
+        dtype = np.result_type(*[f.root[path].coldtypes[name] for name in columns])
         for i, name in enumerate(columns):
             arr = f.root[path].read(slice.start, slice.stop, slice.step, field=name)
             if batch is None:
-                batch = np.zeros((len(arr), len(columns)), dtype=arr.dtype)
+                batch = np.zeros((len(arr), len(columns)), dtype=dtype)
             batch[:, i] = arr
 
         if units is not None:
